@@ -147,6 +147,12 @@ func tgGen(seed uint64, tier string) {
 	if stream == "" {
 		stream = "core"
 	}
+	if stream == "core" {
+		// a passing and an expected-to-fail test function with the same name after the prefix
+		pair := []tgFile{{name: "pair.go", content: "package semantics\n\nfunc testSame() bool {\n\treturn true\n}\n\nfunc failing_testSame() bool {\n\treturn false\n}\n"}}
+		proto.Reply("%s", encodeCase("go", pair))
+		proto.Reply("%s", encodeCase("coq", pair))
+	}
 	for i := 0; i < n; i++ {
 		var files []tgFile
 		nfile := r.Intn(4)
